@@ -117,6 +117,19 @@ abbrev Events := List (Nat × Int)
 
 def Events.get (ev : Events) (i : Nat) : Option Int := (ev.find? (·.1 == i)).map (·.2)
 
+/-- a send to sink `i` inside the current transaction: a sink with coalescer `f2 op` folds the new
+    value into the pending event (previous value first), any other sink keeps the last value sent -/
+def addSend (coal : Option Int) (sends : Events) (i : Nat) (v : Int) : Events :=
+  match coal, sends.get i with
+  | some op, some old => (sends.filter (·.1 != i)) ++ [(i, f2 op old v)]
+  | _, _ => (sends.filter (·.1 != i)) ++ [(i, v)]
+
+/-- the coalescer of a definition, if it is a sink created with one -/
+def Spec.coalescer (sp : Spec) (i : Nat) : Option Int :=
+  match sp.getDef i with
+  | .sink (some op) => some op
+  | _ => none
+
 /-- the firing equation of one definition, given the firings of the definitions it reads
     (`look`) and the start-of-transaction cell values; `none` = some operand not computed yet. -/
 def fireOf (sp : Spec) (ev : Events) (look : Nat → Option (Option Int)) (i : Nat) : Option (Option Int) :=
@@ -221,6 +234,10 @@ def deferred (sp : Spec) (tbl : Table) : List (Nat × Int) :=
         | some v => acc ++ (List.range n).map fun (j : Nat) => (i, wrap (v + (j : Int)))
         | none => acc)
     | _ => acc) []
+
+/-- one whole transaction at the level of S: fire, update cells, advance the transaction counter -/
+def stepTxn (sp : Spec) (ev : Events) : Spec :=
+  { applyUpdates sp (fireTable sp ev) with txn := sp.txn + 1 }
 
 end Spec
 end SodiumVerif
